@@ -2,7 +2,7 @@ SPECIFICATION Spec
 CONSTANTS
   Mode = "time"
   Lens <- Q_Lens
-  NCols = 6
-  NReal = 3
+  NCols = 4
+  NReal = 2
 INVARIANT Emit
 CHECK_DEADLOCK FALSE
